@@ -168,6 +168,24 @@ pub fn run(args: &[String]) {
             }
         }
     }
+    // long operator-heavy sequences with random joint bits (every joint bit of the first two 64-token words is
+    // exercised next to characters that can combine)
+    {
+        use SyntaxKind::*;
+        let ops: Vec<SyntaxKind> = "-=><:!.*/&%^+|".chars().map(|c| SyntaxKind::from_char(c).unwrap()).collect();
+        let fill = [IDENT, INT_NUMBER, SEMICOLON, L_PAREN, R_PAREN];
+        let mut lrng = Rng::new(seed.wrapping_mul(7_000_003).wrapping_add(shard));
+        for _ in 0..arg_u64(args, "--long", 0) {
+            let len = 64 + lrng.below(67) as usize;
+            let v: Vec<(SyntaxKind, bool)> = (0..len)
+                .map(|_| {
+                    let k = if lrng.below(5) < 4 { ops[lrng.below(ops.len() as u64) as usize] } else { fill[lrng.below(fill.len() as u64) as usize] };
+                    (k, lrng.below(2) == 0)
+                })
+                .collect();
+            emit(&mut w, &v);
+        }
+    }
     // random sequences (length 1..=14) with random joint bits, biased towards punctuation runs
     let mut rng = Rng::new(seed.wrapping_add(shard.wrapping_mul(104729)));
     for _ in 0..arg_u64(args, "--random", 0) {
